@@ -237,6 +237,23 @@ class PoolSelection:
                     continue
                 rets = {}
                 all_oks = [(eb, i_, v) for (eb, i_, cls, v) in common.exit_sites(P, h) if cls != "err"]
+                # a mode parameter passed as a literal payload-free variant (`select_pools(&pools, &info, SwapSide::Ask)`):
+                # blocks behind a test of that parameter's variant are taken / dropped according to the literal
+                lit = {i: str(a[2]).rsplit("::", 1)[-1] for i, a in enumerate(cv[4]) if a[0] == "agg" and a[1] == "adt" and not a[3] and isinstance(a[2], str)}
+                sat, viol = set(), set()
+                if lit:
+                    for hb in range(len(h.body.blocks)):
+                        if h.body.blocks[hb]["cleanup"]:
+                            continue
+                        for c_ in common.control_conditions(P, h, hb, expand_helpers=False):
+                            cd = c_["cond"]
+                            if cd[0] == "discr" and cd[1][0] == "param" and cd[1][1] == h.path and cd[1][2] in lit:
+                                (sat if lit[cd[1][2]] in c_["allowed"] else viol).add(hb)
+                    sat -= viol
+                if lit:
+                    r0_, r1_ = set(inner.regions[0]), set(inner.regions[1])
+                    inner.regions[0] = (r0_ - viol) | (sat - r1_)
+                    inner.regions[1] = (r1_ - viol) | (sat - r0_)
                 for k in (0, 1):
                     oks = [(eb, v) for (eb, i_, v) in all_oks if eb in inner.regions[k]]
                     if len(oks) == 1:
